@@ -288,9 +288,9 @@ func init() {
 		NonTrivial: func(r *simrt.Run) bool {
 			return r.Ops["tick:ok"] >= 3 && r.Extra["timers_fired"] >= 2 && r.FaultsFired() >= 1
 		},
-		Rule: "tape-generated add/del/has/tick sequences over 1-2 timer stores sharing one KV store, both timer kinds, keys from a 4-byte alphabet (colliding expiries and keys biased), callbacks that add/delete timers chosen by the tape at firing time; faults: skipped ticks, time jumps/stalls, sub-second blocks, discarded cache-context transactions. Non-trivial = at least 3 ticks, 2 fired timers and 1 fault; distinct = distinct (op,outcome,fault) sequence hash",
-		Real:     []string{"x/timerstore/types.TimerStore", "cosmos-sdk IAVL/cachekv store"},
-		Stubbed:  []string{"block clock (simulated)", "timer users (tape-driven callbacks)"},
-		Assume:   []string{"block time is monotonic non-decreasing (BFT time)", "legal API use: expiry strictly in the future, delete only existing timers"},
+		Rule:    "tape-generated add/del/has/tick sequences over 1-2 timer stores sharing one KV store, both timer kinds, keys from a 4-byte alphabet (colliding expiries and keys biased), callbacks that add/delete timers chosen by the tape at firing time; faults: skipped ticks, time jumps/stalls, sub-second blocks, discarded cache-context transactions. Non-trivial = at least 3 ticks, 2 fired timers and 1 fault; distinct = distinct (op,outcome,fault) sequence hash",
+		Real:    []string{"x/timerstore/types.TimerStore", "cosmos-sdk IAVL/cachekv store"},
+		Stubbed: []string{"block clock (simulated)", "timer users (tape-driven callbacks)"},
+		Assume:  []string{"block time is monotonic non-decreasing (BFT time)", "legal API use: expiry strictly in the future, delete only existing timers"},
 	})
 }
